@@ -28,17 +28,28 @@ OPERATOR_FORM = {"add": "({0} + {1})", "subtract": "({0} - {1})", "multiply": "(
                  "gt": "({0} > {1})", "ge": "({0} >= {1})"}
 
 
-def _operand(rng, avail, like, p_const=0.3, allow_raw_number=True):
+INF_CONSTS = ["float('inf')", "-float('inf')"]
+
+
+def _operand_impl(rng, avail, like, p_const=0.3, allow_raw_number=True, consts=CONSTS):
     if rng.random() < p_const:
-        c = rng.choice(CONSTS)
+        c = rng.choice(consts)
+        if c in INF_CONSTS:
+            return "ctx.constant(%s, %s)" % (c, like)
         if c.startswith("'") or not allow_raw_number or rng.random() < 0.4:
             return "ctx.constant(%s, %s)" % (c, like)
         return c
     return rng.choice(avail)
 
 
-def gen_source(seed, complex_input=False):
+def gen_source(seed, complex_input=False, infinities=False):
     rng = random.Random(derive(seed, "progen"))
+    consts = CONSTS + INF_CONSTS * 2 if infinities else CONSTS
+    base_operand = _operand_impl
+
+    def _operand(rng_, avail_, like_, p_const=0.3, allow_raw_number=True):
+        return base_operand(rng_, avail_, like_, p_const, allow_raw_number, consts)
+
     nargs = 1 if complex_input else rng.choice([1, 2, 2])
     argnames = ["z"] if complex_input else rng.sample(["x", "y"], nargs) if nargs == 2 else [rng.choice(["x", "z", "y"])]
     fname = "gen_%x" % (derive(seed, "name") & 0xFFFFFF)
@@ -73,6 +84,10 @@ def gen_source(seed, complex_input=False):
             expr = "ctx.%s(%s, %s)" % (k, a, b)  # the Context method keeps a constant on the left
             if rng.random() < 0.3 and bools:
                 expr = "ctx.logical_%s(%s, %s)" % (rng.choice(["and", "or"]), expr, rng.choice(bools))
+            elif rng.random() < 0.1:
+                expr = "ctx.logical_not(%s)" % expr
+            elif rng.random() < 0.1:
+                expr = "ctx.logical_and(%s, ctx.is_finite(%s))" % (expr, rng.choice(avail))
             name = "c%d" % i
             lines.append("%s = %s" % (name, expr))
             bools.append(name)
@@ -129,10 +144,10 @@ def gen_source(seed, complex_input=False):
 _cache = {}
 
 
-def get_generated(seed, complex_input=False):
-    key = (seed, complex_input)
+def get_generated(seed, complex_input=False, infinities=False):
+    key = (seed, complex_input, infinities)
     if key not in _cache:
-        src, fname, nargs = gen_source(seed, complex_input)
+        src, fname, nargs = gen_source(seed, complex_input, infinities)
         ns = {}
         exec(compile(src, "<generated program %s>" % seed, "exec"), ns)
         f = ns[fname]
